@@ -48,7 +48,17 @@ func (p Pattern) Glob(cb func(PathInfo) bool) bool {
 		}
 	}
 
-	return glob(segs, dir, cb)
+	// A path can match in more than one way when the pattern contains more
+	// than one ** (a/b/c matches **/** with the literal slash after a or after
+	// a/b), and glob reports it once per way. Report each path only once.
+	seen := make(map[string]struct{})
+	return glob(segs, dir, func(info PathInfo) bool {
+		if _, ok := seen[info.Path]; ok {
+			return true
+		}
+		seen[info.Path] = struct{}{}
+		return cb(info)
+	})
 }
 
 // isLetter returns true if the byte is an ASCII letter.
